@@ -118,7 +118,11 @@ def qualify(name):
         hd = os.path.join(os.path.dirname(os.path.dirname(os.path.abspath(__file__))), "harness")
         for fn in os.listdir(hd):
             if fn.endswith(".rs"):
-                for m in re.finditer(r"^\s*(?:pub(?:\(crate\))? )?fn (\w+)\(\)", open(os.path.join(hd, fn)).read(), re.M):
+                txt = open(os.path.join(hd, fn)).read()
+                for m in re.finditer(r"^\s*(?:pub(?:\(crate\))? )?fn (\w+)\(\)", txt, re.M):
+                    _QUAL.setdefault(m.group(1), "internal::verif::%s::%s" % (fn[:-3], m.group(1)))
+                # macro-generated harnesses: some_macro!(harness_name, ...)
+                for m in re.finditer(r"^\w+!\(\s*(\w+)\s*[,)]", txt, re.M):
                     _QUAL.setdefault(m.group(1), "internal::verif::%s::%s" % (fn[:-3], m.group(1)))
     return _QUAL.get(name, name)
 
